@@ -4,6 +4,7 @@ from hypothesis import strategies as st
 from vf import gens
 from vf.runner import hyp_run, run_cases, guard, fail, exc_failure
 
+THOROUGH_SCALE = 2      # multiplies every generated-case budget of the thorough tier
 RULE = ("lattice (7 families incl. triclinic and rhombohedral in both settings, pseudo-symmetric cells c=a(1+1e-3), "
         "centrings P/I/F/A/B/C and R on hexagonal axes, cell edges from 2.5 to 108 A) x makerings(d* limit giving <= ~14 rings, tol) x ring pair "
         "(r1,r2) among the first 10 rings incl. r1=r2 x true hkl pairs drawn from the two rings (all pairs of rings "
